@@ -10,11 +10,13 @@ Rec == ndJsonDeserialize(IOEnv.TRACE)
 
 CONSTANT Debug    \* TRUE: report every mismatching observation and keep going (diagnosis run)
 
-VARIABLE l
-tvars == <<vars, l>>
+VARIABLES l,
+          prev     \* what the memory logically was before the last call (for crash events: the in-flight call is the last one)
+tvars == <<vars, l, prev>>
+Snap == [exists |-> exists, frames |-> frames, pend |-> pend, tseq |-> ticket.seq]
 
 \* a checked observation: in a diagnosis run a failing one is reported and masked
-Chk(name, cond) == cond \/ (Debug /\ PrintT(<<"MISMATCH", l, name>>))
+Chk(name, cond) == IF cond THEN TRUE ELSE (Debug /\ PrintT(<<"MISMATCH", l, name>>))
 
 Ev == Rec[l]
 Has(r, f) == f \in DOMAIN r
@@ -85,7 +87,7 @@ ResErr(name) == ~Ev.res.ok /\ Has(Ev.res, "err") /\ Ev.res.err = name
 Matches == Chk("result", IF last'.res = "ok" THEN ResOk ELSE ResErr(last'.res))
 
 (* --------------------------------- events -------------------------------- *)
-TraceInit == l = 1 /\ Init
+TraceInit == l = 1 /\ Init /\ prev = [exists |-> "no", frames |-> <<>>, pend |-> <<>>, tseq |-> 0]
 
 TReset == /\ IsEvent("reset")
           /\ exists' = "no" /\ frames' = <<>> /\ pend' = <<>>
@@ -223,10 +225,48 @@ TDoctor == /\ IsEvent("doctor")
 TBroken == /\ exists = "broken" /\ l <= Len(Rec) /\ Ev.ev # "reset" /\ l' = l + 1
            /\ UNCHANGED vars
 
-TraceNext == \/ TReset \/ TCreate \/ TCommit \/ TOpen \/ TOpenRO \/ TClose \/ TAbandon
+(* ------------------------ crash events (disk engine) ---------------------- *)
+\* A crash event follows the event of the call that was in flight when the process died / the power failed at
+\* file operation `at`; it carries what the REAL recovery showed on the reconstructed directory.  The history
+\* allows exactly two logical states: the one before that call and the one after it (DESIGN 5, stage 1).
+FrameEq(f, o, shown) ==
+  /\ f.uri = o.uri /\ f.st = o.st /\ f.role = o.role /\ f.parent = o.parent /\ f.sup = o.sup /\ f.supby = o.supby
+  /\ f.ts = o.ts /\ (IF f.st = "active" THEN f.emb ELSE 0) = o.emb /\ f.ci = o.ci /\ f.cc = o.cc /\ shown = o.pay
+TableEq(fs, o) ==
+  /\ Has(o, "count") /\ Len(fs) = o.count /\ Has(o, "frames") /\ Len(o.frames) = o.count
+  /\ \A i \in 1..o.count : FrameEq(fs[i], o.frames[i], ShownPay(fs, i))
+Recover(s) == Apply(s.frames, s.pend)
+CrashAllowed(o) == TableEq(Recover(prev), o) \/ TableEq(Recover(Snap), o)
+Panicked(r) == Has(r, "panic")
+
+TCrash ==
+  /\ IsEvent("crash") /\ UNCHANGED <<vars, prev>>
+  /\ LET e == Ev IN
+     /\ Chk("crash.panic", ~Panicked(e.res) /\ ~Panicked(e.close) /\ ~Panicked(e.second.open) /\ ~Panicked(e.verify) /\ ~Panicked(e.timeline))
+     /\ IF ~e.res.ok
+          THEN Chk("crash.open", prev.exists = "no")      \* only a crash inside create may leave nothing to open
+          ELSE /\ Chk("crash.frames", CrashAllowed(e.obs))
+               /\ Chk("crash.second", e.second.open.ok /\ e.second_same)             \* C04: a second open changes no frame
+               /\ Chk("crash.ticket", e.obs.ticket.seq \in {prev.tseq, ticket.seq})
+     /\ (Has(e, "doctor") =>
+           LET d == e.doctor IN
+           /\ Chk("crash.doctor.panic", ~Panicked(d.first) /\ ~Panicked(d.second) /\ ~Panicked(d.open) /\ ~Panicked(d.verify))
+           /\ Chk("crash.doctor", prev.exists # "no" =>
+                    /\ d.first.ok /\ d.open.ok
+                    /\ (TableEq(Recover(prev), d.obs) \/ TableEq(Recover(Snap), d.obs))      \* C21: doctor keeps every acknowledged frame
+                    /\ d.verify.ok /\ d.verify.val = "Passed"
+                    /\ d.second.ok /\ d.second.val.status = "Clean"))
+     /\ (Has(e, "ro") =>
+           /\ Chk("crash.ro.panic", ~Panicked(e.ro.open) /\ ~Panicked(e.ro.verify))
+           /\ Chk("crash.ro", e.ro.unchanged /\ (e.ro.open.ok => (TableEq(prev.frames, e.ro.obs) \/ TableEq(frames, e.ro.obs)
+                                                                     \/ TableEq(Recover(prev), e.ro.obs) \/ TableEq(Recover(Snap), e.ro.obs)))))
+
+TraceStep == \/ TReset \/ TCreate \/ TCommit \/ TOpen \/ TOpenRO \/ TClose \/ TAbandon
              \/ TPut \/ TUpdate \/ TDelete \/ TVacuum \/ TTicket \/ TBeginBatch \/ TEndBatch
              \/ TTimeline \/ TByUri \/ TVecSet \/ TVerify \/ TDoctor
              \/ TBroken
+
+TraceNext == (TraceStep /\ prev' = Snap) \/ TCrash
 
 TraceSpec == TraceInit /\ [][TraceNext]_tvars
 
